@@ -733,8 +733,12 @@ def from_nested_to_multi_index(X, instance_index=None, time_index=None):
 
     instances = []
     for instance_idx in instance_idxs:
+        # label every cell's series by its column, so that pd.concat aligns the
+        # instances by column and not by whatever name the cell's Series carries
         instance = [
-            _val if isinstance(_val, pd.Series) else pd.Series(_val, name=_lab)
+            _val.rename(_lab)
+            if isinstance(_val, pd.Series)
+            else pd.Series(_val, name=_lab)
             for _lab, _val in X.loc[instance_idx, :].iteritems()  # noqa
         ]
         # instance = [
